@@ -211,6 +211,7 @@ def analysis_check(pid, tier, seed, *, items, want, builders, N, variants=None, 
         "TLC 1.8 and CommunityModules Json/FiniteSetsExt; spec/Exact.tla (self-tested against native arithmetic in setup)",
         "sympy evaluates Polar's closed forms at integer n and rational parameter points (utils.eval_re, as --at_n does)",
         "parameter values and symbolic initial values are sampled (2 points per program); n <= N",
+        "where used (checks that request `cont'): Normal / Uniform / Laplace draws with constant scale are replaced by finitely supported laws with the same moments up to order 3 or 5 (harness/absyn.py:surrogate, weights solved exactly); only programs in which every variable is affine in the continuous draws and no condition reads them, only monomials within that order",
         "order-bound extension (where used): the general branch of a closed form is an exponential polynomial of order at most twice the size of Polar's recurrence system; the exact sequence of a chain with m reachable stores has order at most m",
     ]
     return run.finish(coverage, base_assumptions + (assumptions or []))
